@@ -27,7 +27,7 @@ ANCHORS = ['converters:TaggedUnionConverter.try_convert', 'converters:TaggedUnio
            'converters:DictConverter.try_convert', 'converters:SequenceConverter.try_convert',
            'converters:StructConverter.into_data', 'classes:PaneConverter.into_data', 'convert:into_data', 'convert:convert']
 MIN_COUNTERS = {'quick': {'calls_checked': 30000, 'rejected_inputs_checked': 8000, 'tagged_inputs_checked': 500,
-                          'trap_carriers_used': 3000, 'keyed_inputs_checked': 5000}}
+                          'trap_carriers_used': 3000, 'keyed_inputs_checked': 5000, 'array_layouts_checked': 300}}
 
 TRAPLOG = []
 ARMED = set()
@@ -133,6 +133,13 @@ def run(ctx):
                 checked('convert(typed)', i, ty, env.convert, (x, T), watch=[x])
             if ty.k == 'dc':
                 checked('x.into_data', i, ty, x.into_data, (), watch=[x])
+                # read-only views of the instance: dict (all / set-only / renamed), repr, ==, hash
+                checked('x.dict', i, ty, x.dict, (), watch=[x])
+                checked('x.dict(set_only)', i, ty, x.dict, (), {'set_only': True}, watch=[x])
+                checked('x.dict(rename)', i, ty, x.dict, (), {'rename': rng.choice(('camel', 'kebab', 'scream'))}, watch=[x])
+                checked('repr', i, ty, repr, (x,))
+                checked('==', i, ty, lambda a, b: a == b, (x, copy.copy(x)), watch=[x])
+                checked('hash', i, ty, lambda a: observe(hash, a).kind, (x,))
                 checked('copy', i, ty, copy.copy, (x,))
                 checked('deepcopy', i, ty, copy.deepcopy, (x,))
                 kw = {f.name: getattr(x, f.name) for f in type(x).__pane_info__.fields if f.init and f.name in x.__pane_set__}
@@ -222,3 +229,39 @@ def run(ctx):
         return ty
 
     drive.for_each_case(ctx, 'keyed', max(10, ctx.budget // 6), body_keyed, gen=gen_keyed)
+
+    # arrays the caller owns, in the memory layouts numpy hands out: foreign byte order, a strided view, read-only, Fortran order;
+    # serialising them, or passing them to a dataclass with an array field, leaves bytes, dtype, strides and flags as they were
+    def body_arrays(i, rng, ty_unused, T_unused):
+        import numpy as np
+        base = np.arange(1, 13).astype(rng.choice(('<i4', '>i4', '<f8', '>f8', '>i2', '<c16', '>c16', '?'))).reshape(rng.choice(((12,), (3, 4), (2, 3, 2))))
+        variants = [base, base[::2], np.asfortranarray(base), base.T]
+        ro = base.copy()
+        ro.flags.writeable = False
+        variants.append(ro)
+        swapped = base.byteswap().view(base.dtype.newbyteorder())
+        variants.append(swapped)
+        cls = type(f"KA{next(_serial)}", (env.PaneBase,), {'__annotations__': {'arr': np.ndarray, 'n': int}, 'n': 0, '__module__': __name__})
+        for a in variants:
+            ctx.count('array_layouts_checked')
+            checked('into_data(array)', i, Ty('ndarray', dtype=None), env.into_data, (a,))
+            checked('into_data(array, ndarray)', i, Ty('ndarray', dtype=None), env.into_data, (a, np.ndarray))
+            checked('convert(array)', i, Ty('ndarray', dtype=None), env.convert, (a, np.ndarray), watch=[a])
+            o = checked('Cls(array)', i, Ty('ndarray', dtype=None), cls, (a,))
+            if o.kind == 'value':
+                checked('x.into_data(array field)', i, Ty('ndarray', dtype=None), o.val.into_data, (), watch=[o.val, a])
+            checked('from_data(list-of-array)', i, Ty('ndarray', dtype=None), env.from_data, ([a, a], t.List[np.ndarray]), watch=[a])
+        # Counters with zero / negative counts, defaultdicts: serialising does not tidy the caller's mapping
+        c = collections.Counter({'a': 2, 'b': 0, 'c': -1})
+        checked('into_data(Counter)', i, Ty('counter', [Ty('str')]), env.into_data, (c,))
+        checked('into_data(Counter, typed)', i, Ty('counter', [Ty('str')]), env.into_data, (c, t.Counter[str]))
+        dd = collections.defaultdict(list, {'a': [1]})
+        checked('into_data(defaultdict)', i, Ty('dict', [Ty('str'), Ty('any')]), env.into_data, (dd, t.DefaultDict[str, t.List[int]]))
+        ccls = type(f"KC{next(_serial)}", (env.PaneBase,), {'__annotations__': {'cnt': t.Counter[str]}, '__module__': __name__})
+        o = checked('Cls(Counter)', i, Ty('counter', [Ty('str')]), ccls, (c,))
+        if o.kind == 'value':
+            checked('x.into_data(Counter field)', i, Ty('counter', [Ty('str')]), o.val.into_data, (), watch=[o.val, c])
+
+    from ..tyast import Ty, _serial
+    import typing as t
+    drive.for_each_case(ctx, 'arrays', max(6, ctx.budget // 100), body_arrays, gen=lambda c, r: Ty('int'))
